@@ -148,6 +148,86 @@ def h_decimal_reader(t: str) -> bool:
     return verdict(True)
 
 
+class _Tk:
+    def __init__(self, line: int = 1, column: int = 0):
+        self.line, self.column = line, column
+
+
+class _LoopCtx:
+    """stand-in for While_block / For_block / Forever_block / Single_case_block / Default contexts"""
+
+    def __init__(self, neg: bool):
+        self._neg = neg
+        self.start = _Tk()
+
+    def NOT(self) -> Any:
+        return _Tk() if self._neg else None
+
+
+def h_stacks_balanced(kind: int, neg: bool, body_kind: int) -> bool:
+    """
+    pre: 0 <= kind <= 4 and 0 <= body_kind <= 2
+    post: _
+    """
+    # collecting a loop or case handler leaves the loop / case stacks of the shared compiler context as it found
+    # them - otherwise a later stray continue / break_loop / break would be accepted
+    from explorerscript.ssb_converting.compiler.utils import CompilerCtx, Counter, SsbLabelJumpBlueprint
+    from explorerscript.source_map import SourceMapBuilder
+    from explorerscript.ssb_converting.compiler.compile_handlers.blocks.loop.while_block import WhileBlockCompileHandler
+    from explorerscript.ssb_converting.compiler.compile_handlers.blocks.loop.for_block import ForBlockCompileHandler
+    from explorerscript.ssb_converting.compiler.compile_handlers.blocks.loop.forever_block import ForeverBlockCompileHandler
+    from explorerscript.ssb_converting.compiler.compile_handlers.blocks.switches.case_block import CaseBlockCompileHandler
+    from explorerscript.ssb_converting.compiler.compile_handlers.blocks.switches.default_case_block import DefaultCaseBlockCompileHandler
+    from explorerscript.ssb_converting.compiler.compile_handlers.abstract import AbstractComplexStatementCompileHandler
+    from explorerscript.ssb_converting.ssb_data_types import SsbOperation, SsbOpCode
+    from explorerscript.ssb_converting.ssb_special_ops import SsbLabel
+
+    ctx = CompilerCtx(Counter(), SourceMapBuilder(), {}, Counter(), "$P", {})
+
+    class Body(AbstractComplexStatementCompileHandler):  # type: ignore
+        def __init__(self, k: int):
+            self.k = k
+            self.ctx = _LoopCtx(False)  # type: ignore
+            self.compiler_ctx = ctx
+
+        def collect(self) -> list[Any]:
+            if self.k == 1:
+                return [SsbOperation(ctx.counter_ops(), SsbOpCode(-1, "x"), [])]
+            if self.k == 2:
+                return [SsbOperation(ctx.counter_ops(), SsbOpCode(-1, "Return"), [])]
+            return []
+
+        def add(self, obj: Any) -> None:
+            pass
+
+    c = _LoopCtx(neg)
+    bp = SsbLabelJumpBlueprint(ctx, c, "BranchDebug", [1])  # type: ignore
+    h: Any
+    if kind == 0:
+        h = WhileBlockCompileHandler(c, ctx)  # type: ignore
+        h._branch_blueprint = bp
+    elif kind == 1:
+        h = ForBlockCompileHandler(c, ctx)  # type: ignore
+        h._branch_blueprint = bp
+        h._init_statement_handler = Body(1)
+        h._end_statement_handler = Body(1)
+    elif kind == 2:
+        h = ForeverBlockCompileHandler(c, ctx)  # type: ignore
+    elif kind == 3:
+        h = CaseBlockCompileHandler(c, ctx)  # type: ignore
+        h._header_jump_blueprints = [bp]
+        h.set_end_label(SsbLabel(99, -1))
+    else:
+        h = DefaultCaseBlockCompileHandler(c, ctx)  # type: ignore
+        h.set_end_label(SsbLabel(99, -1))
+    if body_kind > 0:
+        h._added_handlers.append(Body(body_kind))
+    before = (len(ctx._loops), len(ctx._switch_cases))
+    ops = h.collect()
+    after = (len(ctx._loops), len(ctx._switch_cases))
+    return verdict(before == after == (0, 0) and isinstance(ops, list))
+
+
 OBLIGATIONS = [
     {"id": "C10.S1", "module": "harness.hC03", "func": "h_closure",
      "what": "back-end totality: the tail of compile() on every labelled list (label-only routines, undefined labels, "
@@ -183,4 +263,16 @@ OBLIGATIONS = [
      "timeout": {"quick": 240, "thorough": 1800}, "bounds": {"quick": "|t| <= 3 (token predicate is_decimal)", "thorough": "|t| <= 4"},
      "encodes": ["explorerscript.ssb_converting.ssb_data_types.SsbOpParamFixedPoint.from_str",
                  "explorerscript.common_syntax.parse_position_marker_arg"]},
+    {"id": "C10.S2", "module": __name__, "func": "h_stacks_balanced",
+     "what": "stack discipline behind the 'outside a loop / outside a case' rejections: collect() of every loop handler "
+             "(while, while not, for, forever) and case/default handler leaves CompilerCtx's loop and case stacks empty "
+             "again, for empty, plain and flow-ending bodies",
+     "timeout": {"quick": 200, "thorough": 600},
+     "bounds": "5 handler kinds x negation flag x 3 body kinds, all symbolic",
+     "encodes": ["explorerscript.ssb_converting.compiler.compile_handlers.blocks.loop.while_block.WhileBlockCompileHandler.collect",
+                 "explorerscript.ssb_converting.compiler.compile_handlers.blocks.loop.for_block.ForBlockCompileHandler.collect",
+                 "explorerscript.ssb_converting.compiler.compile_handlers.blocks.loop.forever_block.ForeverBlockCompileHandler.collect",
+                 "explorerscript.ssb_converting.compiler.compile_handlers.blocks.switches.case_block.CaseBlockCompileHandler.collect",
+                 "explorerscript.ssb_converting.compiler.compile_handlers.blocks.switches.default_case_block.DefaultCaseBlockCompileHandler.collect"],
+     "stubs": ["parser contexts replaced by stand-ins (NOT(), start); body statements by stand-in handlers"]},
 ]
